@@ -34,6 +34,9 @@ func bodyCanon(b []byte) string {
 }
 
 func headerCanon(h http.Header) []string {
+	if h == nil {
+		return []string{"<nil header map>"} // Result.Equal tells nil from empty, and every codec preserves the difference
+	}
 	out := []string{}
 	for k, vs := range h {
 		for i, v := range vs {
@@ -265,7 +268,9 @@ func csvColumns(cols []string) []any {
 		if b, err := base64.StdEncoding.DecodeString(cols[6]); err == nil {
 			out[6] = bodyCanon(b)
 		}
-		if b, err := base64.StdEncoding.DecodeString(cols[11]); err == nil {
+		if cols[11] == "" {
+			out[11] = headerCanon(nil) // documented layout: no header block at all
+		} else if b, err := base64.StdEncoding.DecodeString(cols[11]); err == nil {
 			out[11] = mimeHeaderCanon(b)
 		}
 	}
@@ -420,6 +425,11 @@ func TestDrv_C09(t *testing.T) {
 			}
 			rs[i] = genResult(r, i, max)
 		}
+		if s%2 == 0 { // every other stream certainly holds a record beyond the codecs' internal buffers (4, 16, 64 KiB)
+			big := r.Intn(n)
+			rs[big].Body = make([]byte, []int{5000, 13000, 20000, 50000, 70000}[(s/2)%5])
+			r.Read(rs[big].Body)
+		}
 		for _, c := range codecs {
 			data, frames := encodeAll(c, rs)
 			total := len(data)
@@ -483,13 +493,27 @@ func TestDrv_C09(t *testing.T) {
 // ---------------------------------------------------------------- C08
 
 type chunkReader struct {
-	r    io.Reader
-	size int
+	r       io.Reader
+	size    int // > 0 fixed chunk size; -1 short first chunk; -2 random sizes
+	first   int
+	started bool
+	rnd     *rand.Rand
 }
 
 func (c *chunkReader) Read(p []byte) (int, error) {
-	if len(p) > c.size {
-		p = p[:c.size]
+	n := c.size
+	switch {
+	case c.size == -1: // a short first chunk, then whatever is asked for
+		n = len(p)
+		if !c.started {
+			n = c.first
+		}
+	case c.size == -2: // irregular chunks
+		n = 1 + c.rnd.Intn(5000)
+	}
+	c.started = true
+	if len(p) > n {
+		p = p[:n]
 	}
 	return c.r.Read(p)
 }
@@ -505,7 +529,7 @@ func TestDrv_C08(t *testing.T) {
 	}
 	cases := 0
 	var samples []any
-	chunkSizes := []int{1, 2, 7, 512, 4096, 1 << 30}
+	chunkSizes := []int{1, 2, 7, 512, 2500, 4096, 1 << 30, -1, -1, -2, -2}
 	for s := 0; s < streams; s++ {
 		n := 1 + r.Intn(12)
 		rs := make([]vegeta.Result, n)
@@ -530,7 +554,7 @@ func TestDrv_C08(t *testing.T) {
 				}
 				cases++
 				tr.Emit("Reset", KV{"kind": "c08", "codec": c.name, "n": n, "chunk": cs, "bytes": len(data)})
-				dec := vegeta.DecoderFor(&chunkReader{bytes.NewReader(data), cs})
+				dec := vegeta.DecoderFor(&chunkReader{r: bytes.NewReader(data), size: cs, first: 1 + r.Intn(400), rnd: r})
 				if dec == nil {
 					tr.Emit("Auto", KV{"detected": false, "out": []int{}, "tail": "none"})
 					continue
@@ -675,6 +699,9 @@ func TestDrv_C13(t *testing.T) {
 				res.Attack = fmt.Sprintf("f%d", f) // (attack, seq) identifies the record
 				res.Seq = uint64(i)
 				res.Latency = time.Duration(r.Int63n(1e10))
+				// all requests start within the same second, so the end of the set is decided by latencies,
+				// not by the request that started last
+				res.Timestamp = time.Unix(1700000000, 0).Add(time.Duration(r.Int63n(1e9)))
 				res.BytesIn, res.BytesOut = uint64(r.Intn(1e6)), uint64(r.Intn(1e6))
 				res.Code = []uint16{200, 200, 404, 500, 0}[r.Intn(5)]
 				// plain error texts: the text report aligns the error set with a tabwriter, so tabs and
